@@ -56,7 +56,61 @@ type Case struct {
 //	c05_try        K[1]=0: contract A tryCall(token K[0]%2 transfer A -> contract B of N, data "x") (callback rejects, caught);
 //	               K[1]=1: same with null data (commits); K[1]=2: the ENTRY script wraps From -> contract B transfer with rejecting
 //	               data in TRY/CATCH and then makes a plain transfer of 1 unit to party K[2]
+//	               (an exception thrown by a payment callback that was called from a native contract cannot be caught: 0 and 2 FAULT);
+//	               K[1]=3: contract A tryCall(XF.xferFail(token, party K[2], N)): XF transfers, then throws; caught, rolled back;
+//	               K[1]=4: the ENTRY script wraps XF.xferFail(token, party K[2], N) in TRY/CATCH, then sends 1 unit to party K[2];
+//	               K[1]=5: contract A tryCall(XF.voteFail(candidate B)); K[1]=6: XF.vote(candidate B, -1 = unvote); K[1]=7: XF.xferOk(token, party K[2], N)
+//
+// XF is a small contract of this package (deployed by account 2 in a fixed prologue block 3, party number 22): it accepts any
+// payment, xferOk/xferFail send its own tokens (xferFail throws afterwards), vote/voteFail vote with its own NEO.
 const own = "c05_"
+
+// xfContract assembles XF.
+func xfContract() *asm.Contract {
+	b := asm.New()
+	var ms []asm.MethodSpec
+	m := func(name string, params int, void bool) {
+		b.Label(name)
+		ms = append(ms, asm.MethodSpec{Name: name, Label: name, Params: params, Void: void})
+	}
+	xfer := func() {
+		b.InitSlot(0, 3).Op(opcode.PUSHNULL, opcode.LDARG2, opcode.LDARG1).Syscall("System.Runtime.GetExecutingScriptHash").Op(opcode.PUSH4, opcode.PACK)
+		b.Op(opcode.PUSH15).Str("transfer").Op(opcode.LDARG0).Syscall("System.Contract.Call")
+	}
+	vote := func() {
+		b.InitSlot(0, 1).Op(opcode.LDARG0).Syscall("System.Runtime.GetExecutingScriptHash").Op(opcode.PUSH2, opcode.PACK)
+		b.Op(opcode.PUSH15).Str("vote").Bytes(neoHash.BytesBE()).Syscall("System.Contract.Call")
+	}
+	m("xferOk", 3, false)
+	xfer()
+	b.Op(opcode.RET)
+	m("xferFail", 3, false)
+	xfer()
+	b.Op(opcode.DROP).Str("xferFail").Op(opcode.THROW)
+	m("vote", 1, false)
+	vote()
+	b.Op(opcode.RET)
+	m("voteFail", 1, false)
+	vote()
+	b.Op(opcode.DROP).Str("voteFail").Op(opcode.THROW)
+	m("onNEP17Payment", 3, true)
+	b.InitSlot(0, 3).Op(opcode.RET)
+	c, err := asm.BuildContract("C05XF", b, ms)
+	if err != nil {
+		panic(err)
+	}
+	return c
+}
+
+const (
+	xfDeployer = 2
+	xfParty    = ck.PContract0 + 2
+)
+
+var (
+	xf     = xfContract()
+	xfHash = ck.ContractHash(ck.Accounts[xfDeployer].Hash, xf)
+)
 
 const neoTotal = 100000000
 
@@ -178,14 +232,39 @@ func translate(b *ck.Builder, a ck.Action) (ck.Action, error) {
 		}
 	case "c05_try":
 		tok := tokenOf(kb(a.K, 0))
-		cA := b.PartyHash(ck.PContract0 + a.A)
-		cB := b.PartyHash(ck.PContract0 + a.B)
+		cA := b.PartyHash(ck.PContract0 + a.A%2)
+		cB := b.PartyHash(ck.PContract0 + ((a.B%2)+2)%2)
 		switch kb(a.K, 1) {
 		case 0:
 			emit.AppCall(w, cA, "tryCall", all, tok, "transfer", int64(all), []any{cA, cB, a.N, []byte("x")})
 			emit.Opcodes(w, opcode.DROP)
 		case 1:
 			emit.AppCall(w, cA, "tryCall", all, tok, "transfer", int64(all), []any{cA, cB, a.N, nil})
+			emit.Opcodes(w, opcode.DROP)
+		case 3:
+			emit.AppCall(w, cA, "tryCall", all, xfHash, "xferFail", int64(all), []any{tok, b.PartyHash(kb(a.K, 2)), a.N})
+			emit.Opcodes(w, opcode.DROP)
+		case 4:
+			s := asm.New()
+			s.Try("catch", "")
+			s.AppCall(xfHash, "xferFail", all, tok, b.PartyHash(kb(a.K, 2)), a.N).Op(opcode.DROP)
+			s.Jmp(opcode.ENDTRYL, "end")
+			s.Label("catch").Op(opcode.DROP).Jmp(opcode.ENDTRYL, "end")
+			s.Label("end")
+			s.AppCall(tok, "transfer", all, from, b.PartyHash(kb(a.K, 2)), int64(1), nil).Op(opcode.DROP)
+			w.WriteBytes(s.Script())
+		case 5:
+			emit.AppCall(w, cA, "tryCall", all, xfHash, "voteFail", int64(all), []any{candPub(a.B).Bytes()})
+			emit.Opcodes(w, opcode.DROP)
+		case 6:
+			if a.B < 0 {
+				emit.AppCall(w, xfHash, "vote", all, nil)
+			} else {
+				emit.AppCall(w, xfHash, "vote", all, candPub(a.B).Bytes())
+			}
+			emit.Opcodes(w, opcode.DROP)
+		case 7:
+			emit.AppCall(w, xfHash, "xferOk", all, tok, b.PartyHash(kb(a.K, 2)), a.N)
 			emit.Opcodes(w, opcode.DROP)
 		default:
 			s := asm.New()
@@ -239,7 +318,7 @@ func (g *gen) party(label string) int   { return g.ir(0, ck.NParties-1, label) }
 // target draws a transfer destination: mostly key holders, sometimes a library contract (payment callback).
 func (g *gen) target(label string) int {
 	if g.ir(0, 4, label+"_c") == 0 {
-		return ck.PContract0 + g.ir(0, 1, label+"_ci")
+		return ck.PContract0 + g.ir(0, 2, label+"_ci")
 	}
 	return g.party(label)
 }
@@ -343,10 +422,12 @@ func (g *gen) callbacks() {
 	i := g.ir(0, max(0, g.n-4), "cb_start")
 	g.add(i, ck.Action{Kind: "gas_transfer", From: g.account("cb_f"), A: ck.PContract0 + cA, N: int64(g.ir(1, 50, "cb_gas")) * 1_0000_0000})
 	g.add(i, ck.Action{Kind: "neo_transfer", From: g.account("cb_f"), A: ck.PContract0 + cA, N: int64(g.ir(1, 200, "cb_neo"))})
-	for k := g.ir(1, 3, "cb_n"); k > 0; k-- {
+	g.add(i, ck.Action{Kind: "gas_transfer", From: g.account("cb_f"), A: xfParty, N: int64(g.ir(1, 50, "cb_gas")) * 1_0000_0000})
+	g.add(i, ck.Action{Kind: "neo_transfer", From: g.account("cb_f"), A: xfParty, N: int64(g.ir(1, 200, "cb_neo"))})
+	for k := g.ir(1, 4, "cb_n"); k > 0; k-- {
 		at := i + g.ir(1, 6, "cb_d")
 		tok := byte(g.ir(0, 1, "cb_tok"))
-		switch g.ir(0, 5, "cb_k") {
+		switch g.ir(0, 6, "cb_k") {
 		case 0, 1, 2:
 			a := ck.Action{Kind: "c05_reenter", From: g.account("cb_f"), A: cA, B: g.ir(0, 4, "cb_mode"), N: int64(g.ir(0, 40, "cb_amt"))}
 			a.K = vt.Bytes{tok, byte(g.party("cb_to")), byte(g.ir(0, 45, "cb_inner")), byte(g.ir(0, 1, "cb_c2"))}
@@ -354,9 +435,22 @@ func (g *gen) callbacks() {
 				a.S = "assert"
 			}
 			g.add(at, a)
-		case 3, 4:
+		case 3, 4, 5:
+			mode := rapid.SampledFrom([]int{0, 1, 2, 3, 3, 3, 4, 4, 5, 5, 6, 6, 7}).Draw(g.t, "cb_tm")
 			a := ck.Action{Kind: "c05_try", From: g.account("cb_f"), A: cA, B: g.ir(0, 1, "cb_c2"), N: int64(g.ir(0, 30, "cb_amt"))}
-			a.K = vt.Bytes{tok, byte(g.ir(0, 2, "cb_tm")), byte(g.party("cb_to"))}
+			if mode == 5 || mode == 6 {
+				a.B = rapid.SampledFrom([]int{-1, 0, 1, 2, 3, 3, 4, 4}).Draw(g.t, "cb_cand")
+				if mode == 5 && a.B < 0 {
+					a.B = 3
+				}
+				// the candidate has to be registered for the vote to do anything
+				g.add(at-g.ir(0, 2, "cb_reg_d"), ck.Action{Kind: "register", From: g.account("cb_f"), A: max(a.B, 0)})
+			}
+			to := g.party("cb_to")
+			if g.ir(0, 4, "cb_to_c") == 0 {
+				to = ck.PContract0 + g.ir(0, 2, "cb_to_ci")
+			}
+			a.K = vt.Bytes{tok, byte(mode), byte(to)}
 			g.add(at, a)
 		default:
 			a := ck.Action{Kind: "invoke", S: "xfer", From: g.account("cb_f"), A: cA, B: int(tok), N: int64(g.ir(0, 30, "cb_amt"))}
@@ -1039,6 +1133,10 @@ func checkCase(c Case, o *vt.Obs) error {
 	if err := prev.invariants(); err != nil {
 		return err
 	}
+	// Fixed prologue block 3: account 2 deploys XF (checked like every other block: it is the first element of the loop below).
+	dw := io.NewBufBinWriter()
+	emit.AppCall(dw.BinWriter, nativehashes.ContractManagement, "deploy", callflag.All, xf.NEF, xf.Manifest)
+	prologue := ck.BlockSpec{TimeD: 1000, Txs: []ck.Action{{Kind: "raw", From: xfDeployer, V: dw.Bytes(), Nonce: 0xC05}}}
 	// The bootstrap replica has verified heights 0..2; on staggered-hardfork chains the Notary contract does not exist
 	// yet at height 2, so the tracker starts from the GAS its hash holds now.
 	var nt notaryTracker
@@ -1051,7 +1149,8 @@ func checkCase(c Case, o *vt.Obs) error {
 	labels := map[string]bool{}
 	nontrivial := false
 	units := 0
-	for i, spec := range c.Blocks {
+	for i, spec := range append([]ck.BlockSpec{prologue}, c.Blocks...) {
+		i-- // -1: prologue
 		tspec := ck.BlockSpec{TimeD: spec.TimeD, Nonce: spec.Nonce, Primary: spec.Primary}
 		byNonce := map[uint32]ck.Action{}
 		for _, a := range spec.Txs {
@@ -1069,6 +1168,12 @@ func checkCase(c Case, o *vt.Obs) error {
 		cur, err := take(bc)
 		if err != nil {
 			return err
+		}
+		if i < 0 {
+			if bc.GetContractState(xfHash) == nil || len(b.Rejected) != 0 {
+				return fmt.Errorf("prologue: XF contract not deployed (rejected: %v)", b.Rejected)
+			}
+			b.Deployed = append(b.Deployed, ck.Deployed{Hash: xfHash, C: xf, Deployer: xfDeployer})
 		}
 		if cur.height != blk.Index {
 			return fmt.Errorf("block spec %d: height %d after adding block %d", i, cur.height, blk.Index)
@@ -1184,7 +1289,16 @@ func checkCase(c Case, o *vt.Obs) error {
 					labels["try-wrapped-transfer"] = true
 				}
 			case "c05_try":
-				labels["try-wrapped-transfer"] = true
+				switch kb(a.K, 1) {
+				case 1:
+					labels["try-wrapped-transfer"] = true
+				case 3, 4:
+					labels["caught-exception-after-transfer"] = true
+				case 5:
+					labels["caught-exception-after-vote"] = true
+				case 6:
+					labels["contract-votes"] = true
+				}
 			}
 		}
 		if com, err := bc.GetCommittee(); err == nil && len(com) > 0 {
